@@ -333,6 +333,30 @@ EffSwapRanges(S0, v, f, l, w, g) ==
 PreIterProbe(S0, v) == Live(S0, v)
 
 (***************************************************************************)
+(* Comparison (C13, C14).  Operands with small value domains, so that ties *)
+(* in leading fields occur: EmplaceC(code, vs) stores the digit            *)
+(* ((code \div 3^(k-1)) % 3) + 1 in every object of parameter k.           *)
+(* CmpAll(v, w) does not change the state; the driver logs the complete    *)
+(* truth tables of all six operators between all elements of v and w (as   *)
+(* references, const references and stand-alone elements) and between the  *)
+(* two vectors; Trace.tla judges them.  Equality is DEFINED here (same      *)
+(* sizes, same values); element-level < is not: only its laws are demanded.*)
+(***************************************************************************)
+RECURSIVE Pow3(_)
+Pow3(n) == IF n <= 0 THEN 1 ELSE 3 * Pow3(n - 1)
+ValC(code, k) == ((code \div Pow3(k - 1)) % 3) + 1
+MkElemC(code, vs, fx) ==
+  [t |-> code,
+   f |-> [k \in Idx |-> IF P[k].k = "count" THEN <<vs[k + 1]>>
+                        ELSE [j \in 1..NObjs(fx, vs, k) |-> ValC(code, k)]]]
+PreEmplaceC(S0, v, code, vs) == PreEmplace(S0, v, code, vs)
+EffEmplaceC(S0, v, code, vs) == [S0 EXCEPT !.vec[v].elems = Append(@, MkElemC(code, vs, S0.vec[v].fx))]
+
+EqElem(a, b) == a.f = b.f
+EqElems(as, bs) == Len(as) = Len(bs) /\ \A i \in 1..Len(as) : EqElem(as[i], bs[i])
+PreCmpAll(S0, v, w) == Live(S0, v) /\ Live(S0, w)
+
+(***************************************************************************)
 (* Dispatch on the operation name - used by the generator actions below    *)
 (* and by Trace.tla.                                                       *)
 (***************************************************************************)
@@ -341,6 +365,7 @@ VecOps1 == {"Construct", "DefaultConstruct", "Destroy", "Emplace", "PopBack", "E
 VecOps2 == {"CopyConstruct", "CopyAssign", "MoveConstruct", "MoveAssign", "Swap"}
 ElemOps == {"ElemFromRef", "ElemFromRvRef", "ElemCopy", "ElemMove", "ElemCopyAlloc", "ElemMoveAlloc",
             "ElemCopyAssign", "ElemMoveAssign", "ElemSwap", "ElemAssignFromRef", "ElemAssignFromRvRef", "ElemDestroy"}
+CmpOps == {"CmpAll"}
 RefOps == {"RefAssign", "RefMoveAssign", "RefSwap", "IterSwap", "WriteItem", "Rotate", "Reverse", "SwapRanges",
            "IterProbe"}
 ElemOps2 == {"ElemCopy", "ElemMove", "ElemCopyAlloc", "ElemMoveAlloc", "ElemCopyAssign", "ElemMoveAssign", "ElemSwap"}
@@ -373,6 +398,8 @@ PreOf(S0, n, v, a) ==
     [] n = "Reverse"          -> PreReverse(S0, v, a[1], a[2])
     [] n = "SwapRanges"       -> PreSwapRanges(S0, v, a[1], a[2], a[3], a[4])
     [] n = "IterProbe"        -> PreIterProbe(S0, v)
+    [] n = "EmplaceC"         -> PreEmplaceC(S0, v, a[1], SubSeq(a, 2, Len(a)))
+    [] n = "CmpAll"           -> PreCmpAll(S0, v, a[1])
     [] OTHER                  -> FALSE
 
 EffOf(S0, n, v, a, par) ==
@@ -412,6 +439,8 @@ EffOf(S0, n, v, a, par) ==
     [] n = "Reverse"          -> EffReverse(S0, v, a[1], a[2])
     [] n = "SwapRanges"       -> EffSwapRanges(S0, v, a[1], a[2], a[3], a[4])
     [] n = "IterProbe"        -> S0
+    [] n = "EmplaceC"         -> EffEmplaceC(S0, v, a[1], SubSeq(a, 2, Len(a)))
+    [] n = "CmpAll"           -> S0
 
 (* constraint on logged parameters: what the properties do fix *)
 ParOK(S0, n, v, a, par) ==
@@ -482,6 +511,9 @@ Permute          == \E v \in Vecs, f \in 0..MaxReserve, m \in 0..MaxReserve, l \
                        \/ Do("Rotate", v, <<f, m, l>>) \/ (m = f /\ Do("Reverse", v, <<f, l>>))
                        \/ \E w \in Vecs, g \in 0..MaxReserve : m = f /\ Do("SwapRanges", v, <<f, l, w, g>>)
 IterProbe        == \E v \in Vecs : Do("IterProbe", v, <<>>)
+CmpCodes         == {0, 1, 3}             \* digits of the first two value parameters: (1,1) (2,1) (1,2)
+EmplaceC         == \E v \in Vecs, c \in CmpCodes, vs \in VsSpace : Do("EmplaceC", v, <<c>> \o vs)
+CmpAll           == \E v \in Vecs, w \in Vecs : Do("CmpAll", v, <<w>>)
 
 Init == /\ vec = [v \in Vecs |-> Absent]
         /\ el = [x \in Elems |-> Absent]
@@ -490,7 +522,7 @@ Init == /\ vec = [v \in Vecs |-> Absent]
 Next == \/ Construct \/ DefaultConstruct \/ Destroy \/ EmplaceBack \/ PopBack \/ Erase \/ EraseRange
         \/ Clear \/ Reserve \/ CopyConstruct \/ CopyAssign \/ MoveConstruct \/ MoveAssign \/ Swap
         \/ ElemFromRef \/ ElemCopyMove \/ ElemAssign \/ ElemRefAssign \/ ElemDestroy
-        \/ RefAssign \/ WriteItem \/ Permute \/ IterProbe
+        \/ RefAssign \/ WriteItem \/ Permute \/ IterProbe \/ EmplaceC \/ CmpAll
 
 Spec == Init /\ [][Next]_vars
 
